@@ -75,7 +75,7 @@ fn out_of(pos: usize) -> &'static str {
 pub fn run_c04f(args: &Args) -> Report {
     let mut rep = Report::new("C04", "M7-faults", &args.replay_dir);
     let model = Model::new(&args.model, &args.work);
-    let mut rng = Rng::new(args.seed.wrapping_add(0xC04));
+    let mut rng = Rng::new(args.seed.wrapping_add(0xC04).wrapping_add((args.shard as u64).wrapping_mul(7919)));
     rep.rule = format!("fault kinds {:?} x position of the faulty file (root / middle / leaf of an include chain / unrelated sibling) x modes build, needed, verify (clean separately: it must ignore directive faults) x thread counts {{1,2,8}}; real OS faults: output path occupied by a directory, output path a symlink to /dev/full (ENOSPC at flush), RLIMIT_FSIZE via `ulimit -f` with SIGXFSZ ignored (EFBIG after N bytes; N swept over the chunk boundaries of the outputs), temp target in a missing directory / on a directory, includes of a directory and of invalid UTF-8, invalid UTF-8 in a source; library verdict and CLI exit status. Oracle: fault reached => Err / exit != 0; never `ok` with an incomplete output. Cases the model can express are also compared with it.", KINDS);
     let mut runner = Runner::new(args, "c04f");
     let bin = args.bin.clone().unwrap_or_default();
@@ -129,6 +129,9 @@ pub fn run_c04f(args: &Args) -> Report {
                 cfg.inputs = match input_variant {
                     1 => vec![".".to_string(), ".".to_string()],
                     2 => vec![".".to_string(), "sub/..".to_string(), "sub".to_string()],
+                    // only the root of the include chain is requested: a fault in the middle or the leaf is reached as a
+                    // dependency only (also in verify / needed over an already built tree)
+                    3 if (pos == 1 || pos == 2) && mode != "clean" => vec!["root.txt.txtpp".to_string()],
                     _ => vec![".".to_string()],
                 };
                 let reached = match (kind, mode) {
@@ -165,6 +168,9 @@ pub fn run_c04f(args: &Args) -> Report {
                     }
                     continue;
                 }
+                if cfg.inputs.len() == 1 && cfg.inputs[0] == "root.txt.txtpp" {
+                    rep.count(&format!("fault-reached-only-as-a-dependency:{mode}"));
+                }
                 let i = runner.run_here(&cfg, &p.cmds, vec![format!("{kind}|{pos}|{mode}")], &format!("fault {kind} at position {pos} in mode {mode}"));
                 idx_kind.push((i, kind.to_string(), pos, mode));
                 let c = &runner.cases[i];
@@ -190,7 +196,10 @@ pub fn run_c04f(args: &Args) -> Report {
                     cmd.arg("-r").arg("-j").arg(cfg.threads.to_string());
                     // the whole tree as one input, or every source named on its own (the faulty one somewhere in the list)
                     let split_inputs = rng.chance(1, 2);
-                    if split_inputs {
+                    let root_only = cfg.inputs.len() == 1 && cfg.inputs[0] == "root.txt.txtpp";
+                    if root_only {
+                        cmd.arg("root.txt.txtpp");
+                    } else if split_inputs {
                         let mut names: Vec<String> = p.sources.clone();
                         if rng.chance(1, 2) {
                             names.reverse();
